@@ -11,6 +11,7 @@ import (
 	"fmt"
 	"os"
 	"path/filepath"
+	"regexp"
 	"runtime/debug"
 	"sort"
 	"strings"
@@ -129,7 +130,11 @@ type Finding struct {
 	ID         string   `json:"id"`
 	Properties []string `json:"properties"`
 	Keys       []string `json:"keys"`
-	What       string   `json:"what"`
+	// KeyPatterns (optional): regular expressions over obligation keys. Used for the few design-level
+	// findings whose obligations move with a refactoring (same publishing event / same unlocked cone)
+	// without becoming a different defect; everything else is matched by exact key.
+	KeyPatterns []string `json:"key_patterns,omitempty"`
+	What        string   `json:"what"`
 	Repro      string   `json:"reproduction,omitempty"`
 	Status     string   `json:"status"` // known | fixed
 	Commit     string   `json:"commit,omitempty"`
@@ -341,6 +346,11 @@ func report(pr *Property, c *Ctx, p *Prog, repo, tier, goarch, goos, cg string, 
 	vdir := verifDir()
 	findings := loadFindings(filepath.Join(vdir, "known_findings.json"))
 	known := map[string]*Finding{}
+	type knownPat struct {
+		re *regexp.Regexp
+		f  *Finding
+	}
+	var knownPats []knownPat
 	for i := range findings {
 		f := &findings[i]
 		if f.Status != "known" {
@@ -351,8 +361,26 @@ func report(pr *Property, c *Ctx, p *Prog, repo, tier, goarch, goos, cg string, 
 				for _, k := range f.Keys {
 					known[k] = f
 				}
+				for _, ps := range f.KeyPatterns {
+					re, err := regexp.Compile(ps)
+					if err != nil {
+						fail("known_findings.json: bad key pattern %q: %v", ps, err)
+					}
+					knownPats = append(knownPats, knownPat{re, f})
+				}
 			}
 		}
+	}
+	lookupKnown := func(key string) (*Finding, bool) {
+		if f, ok := known[key]; ok {
+			return f, true
+		}
+		for _, kp := range knownPats {
+			if kp.re.MatchString(key) {
+				return kp.f, true
+			}
+		}
+		return nil, false
 	}
 	sort.SliceStable(c.Obs, func(i, j int) bool { return c.Obs[i].Key() < c.Obs[j].Key() })
 	// duplicate keys would make known-finding matching ambiguous: disambiguate deterministically
@@ -376,7 +404,7 @@ func report(pr *Property, c *Ctx, p *Prog, repo, tier, goarch, goos, cg string, 
 			nUnd++
 			undLines = append(undLines, fmt.Sprintf("UNDECIDED property=%s %s — %s", pr.ID, o.Key(), firstLine(o.Msg)))
 		case "violated":
-			if f, ok := known[o.Key()]; ok {
+			if f, ok := lookupKnown(o.Key()); ok {
 				nKnown++
 				matched[f.ID] = append(matched[f.ID], o.Key())
 				continue
